@@ -83,6 +83,9 @@ def call_breaker(b, name, tid=None):
     raise AssertionError(name)
 
 
+PIN_NF = [None]
+
+
 def breaker_config(sym, init):
     thr = sym.int("thr", 1, 3)
     w = sym.real("w", lo=0)
@@ -93,7 +96,7 @@ def breaker_config(sym, init):
     b_ = a + sym.real("f01", lo=0)
     t0 = b_ + sym.real("t0d", lo=0)
     if init == "closed":
-        nf = sym.int("nf", 0, 2)
+        nf = PIN_NF[0] if PIN_NF[0] is not None else sym.int("nf", 0, 2)
         f0 = [a, b_][: (0 if nf == 0 else (1 if nf == 1 else 2))]
         sym.assume(len(f0) < thr)
     else:
@@ -106,7 +109,11 @@ def breaker_config(sym, init):
 def h_breaker(sym, params):
     ops, init, pb = params["ops"], params["init"], params["pb"]
     P = P_BREAKER
-    cfg = breaker_config(sym, init)
+    PIN_NF[0] = params.get("pin_nf")
+    try:
+        cfg = breaker_config(sym, init)
+    finally:
+        PIN_NF[0] = None
     clk = [cfg[5]]
     reads = []
     cur = [None]
@@ -182,7 +189,7 @@ def h_budget(sym, params):
     cap = sym.int("cap", 0, 3)
     w = sym.real("w", lo=0)
     sym.assume(w > 0)
-    n0 = sym.int("n0", 0, 2)
+    n0 = params["pin_n0"] if "pin_n0" in params else sym.int("n0", 0, 2)
     e0 = sym.real("e0", lo=0)
     e1 = e0 + sym.real("e01", lo=0)
     ev = [e0, e1][: (0 if n0 == 0 else (1 if n0 == 1 else 2))]
@@ -313,11 +320,16 @@ def jobs(tier):
             for init in inits:
                 # the closed state with failures is by far the largest tree: one pre-emption there, two elsewhere
                 pb3 = 1 if (init == "closed" and "fail" in ops) else 2
-                out.append(dict(name=f"breaker3:{'||'.join(ops)}:{init}:pb={pb3}", harness="rv.props.c17:h_breaker",
-                                params=dict(ops=ops, init=init, pb=pb3), max_wall_s=wall, weight=6))
+                for nf in (range(3) if init == "closed" else [None]):
+                    p3 = dict(ops=ops, init=init, pb=pb3)
+                    if nf is not None:
+                        p3["pin_nf"] = nf
+                    out.append(dict(name=f"breaker3:{'||'.join(ops)}:{init}:pb={pb3}" + (f":nf={nf}" if nf is not None else ""),
+                                    harness="rv.props.c17:h_breaker", params=p3, max_wall_s=wall, weight=6))
         for ops in (["consume1", "consume1", "remaining"], ["consume1"] * 3):
-            out.append(dict(name=f"budget3:{'||'.join(ops)}:pb=1", harness="rv.props.c17:h_budget",
-                            params=dict(ops=ops, pb=1), max_wall_s=wall, weight=6))
+            for n0 in range(3):
+                out.append(dict(name=f"budget3:{'||'.join(ops)}:pb=1:n0={n0}", harness="rv.props.c17:h_budget",
+                                params=dict(ops=ops, pb=1, pin_n0=n0), max_wall_s=wall, weight=6))
         for init in inits:
             out.append(dict(name=f"breaker:state||fail:{init}", harness="rv.props.c17:h_breaker",
                             params=dict(ops=["state", "fail"], init=init, pb=pb), max_wall_s=wall, weight=2))
